@@ -8,6 +8,8 @@
 package verifshim
 
 import (
+	"io"
+	"os"
 	"reflect"
 	"sort"
 )
@@ -142,6 +144,21 @@ func Close(ch interface{}) {
 	}
 	reflect.ValueOf(ch).Close()
 }
+
+// SinkHook: set by the cooperative scheduler; called before every write to the standard output.
+var SinkHook func()
+
+type stdoutWriter struct{}
+
+func (stdoutWriter) Write(p []byte) (int, error) {
+	if SinkHook != nil {
+		SinkHook()
+	}
+	return os.Stdout.Write(p)
+}
+
+// StdoutWriter stands where the program says os.Stdout and an io.Writer is expected.
+func StdoutWriter() io.Writer { return stdoutWriter{} }
 
 // Go performs `go fn()`.
 func Go(fn func()) {
